@@ -16,15 +16,15 @@ func init() {
 		Note:      "trusted: go/ssa CFG; the path fields are owned by the path goroutine (single writer), which C40's channel rules support"})
 	register(Property{ID: "C18", Level: "other", Run: runC18,
 		Technique: "static analysis: who-may-write on path.readers / path.stream, must-pass-through path conditions on addReaderPost and setNotAvailable (go/ssa)",
-		Text:      "path.readers is written only in initialize (make) and addReaderPost (insert); a reader is removed from it (a delete instruction, or a call of a method that deletes the reader it is given, such as executeRemoveReader) only in answer to that reader's own remove request or by a teardown loop that also Close()s it; the insert is reached only with the author absent and not(maxReaders != 0 and len(readers) >= maxReaders); setNotAvailable removes and Close()s every reader on every path before it returns; path.stream is cleared only by setNotAvailable and set only by setAvailable. This is the counting and teardown skeleton; it does not decide reader behaviour after Close().",
+		Text:      "path.readers is written only in initialize (make) and addReaderPost (insert); a reader is removed from it (a delete instruction, or a call of a method that deletes the reader it is given, such as executeRemoveReader) only in answer to that reader's own remove request or by a teardown loop that also Close()s it; the insert is reached only with the author absent and not(maxReaders != 0 and len(readers) >= maxReaders); setNotAvailable removes and Close()s every reader on every path before it returns; path.stream is cleared only by setNotAvailable and set only by setAvailable; the limit survives a configuration reload: a living path receives a new configuration only through the chain store-of-a-parameter / channel / sender / call site, each call site dominated by pathConfCanBeUpdated(old, new) being true (directly or through a local set filled only under it), and pathConfCanBeUpdated can be true only with an unchanged MaxReaders (MaxReaders is not among the fields it overwrites in the clone it compares) unless doReloadConf re-establishes len(readers) <= MaxReaders. This is the counting and teardown skeleton; it does not decide reader behaviour after Close().",
 		Note:      "trusted: single-goroutine ownership of path fields"})
 	register(Property{ID: "C19", Level: "other", Run: runC19,
 		Technique: "static analysis: exactly-once typestate over all CFG paths of the request handlers (answer | hold | answering call), drain rules on the on-hold lists, on-demand state-transition table (go/ssa)",
-		Text:      "On every path of each path / path-manager request handler exactly one of {send on req.Res, close(req.Res), append to an on-hold list, call of an answering function} happens; the on-hold lists are appended to only by doDescribe/doAddReader; every `list = nil` is preceded by a loop answering every element, the drain sites are exactly source ready / publisher added (consumeOnHoldRequests), both start-timeout timers, and the teardown of run answers both lists; requesters receive from req.Res after a successful send on an unbuffered channel created by the wrapper; stores to the on-demand state fields form exactly the documented transition table and Start is called only from state initial; inside a handler no onDemand*ScheduleClose (arming of the close timer) follows a call that attaches readers (consumeOnHoldRequests / addReaderPost) unless len(readers) == 0 was re-tested, and the two on-ready handlers arm it before their success reply when the source arrived on demand. Interleavings with timer expiry are not decided.",
+		Text:      "On every path of each path / path-manager request handler exactly one of {send on req.Res, close(req.Res), append to an on-hold list, call of an answering function} happens; the on-hold lists are appended to only by doDescribe/doAddReader; every `list = nil` is preceded by a loop answering every element, the drain sites are exactly source ready / publisher added (consumeOnHoldRequests), both start-timeout timers, and the teardown of run answers both lists; requesters receive from req.Res after a successful send on an unbuffered channel created by the wrapper; stores to the on-demand state fields form exactly the documented transition table and Start is called only from state initial; inside a handler no onDemand*ScheduleClose (arming of the close timer) follows a call that attaches readers (consumeOnHoldRequests / addReaderPost) unless len(readers) == 0 was re-tested, and the two on-ready handlers arm it before their success reply when the source arrived on demand; the handler of a reader's remove request arms it on every path that can end with len(readers) == 0, the kind configured and the state ready - in particular also when the author had already been detached by the path itself (publisher gone first), because that request is then the only event left that stops the on-demand source. Interleavings with timer expiry are not decided.",
 		Note:      "trusted: Go channel semantics; single-goroutine ownership of path fields"})
 	register(Property{ID: "C20", Level: "other", Run: runC20,
 		Technique: "static analysis: per-holder pairing idioms for the closures returned by hooks.On* (defer / nil-guarded field / resource-paired field), who-may-store and who-may-call on holder fields, guarded-caller tables (go/ssa)",
-		Text:      "Every closure returned by hooks.On* (13 sites) is held by one of three idioms, and each idiom is checked: locals are deferred or called on every path to return; path.onOfflineHook is stored only in setOnline after setOffline and called only nil-guarded in setOffline followed by = nil; path.onUnDemandHook is stored only in onDemandPublisherStart (entered only from state initial), called and cleared only in onDemandPublisherStop and the run teardown; path.onUnavailableHook is stored only in setAvailable after the stream initialised and called only in setNotAvailable, whose callers are each dominated by a literal implying the stream is held (frozen table) and which clears the stream on all paths; after a successful setAvailable every error exit rolls back; server-side field holders (rtsp conn/session, hls session) are stored and called only in their paired functions under the paired state literal. This decides that every transition function preserves 'hook open <=> resource held', not alternation over arbitrary lifecycles.",
+		Text:      "Every closure returned by hooks.On* (13 sites) is held by one of three idioms, and each idiom is checked: locals are deferred or called on every path to return; path.onOfflineHook is stored only in setOnline after setOffline and called only nil-guarded in setOffline followed by = nil; path.onUnDemandHook is stored only in onDemandPublisherStart (entered only from state initial), called and cleared only in onDemandPublisherStop and the run teardown; path.onUnavailableHook is stored only in setAvailable after the stream initialised and called only in setNotAvailable, whose callers are each dominated by a literal implying the stream is held (frozen table) and which clears the stream on all paths; after a successful setAvailable every error exit rolls back; server-side field holders (rtsp conn/session, hls session) are stored and called only in their paired functions under the paired state literal; conversely (closed_when_open) in every closing function of the table - for path.run: after the event loop returned - every path to a return runs the stop closure unless it passes the edge on which the 'pair is open' literal is false (holder == nil, state != play, stream == nil for the stream-paired hook closed through setNotAvailable), i.e. the stop closure is not put under any additional condition. This decides that every transition function preserves 'hook open <=> resource held', not alternation over arbitrary lifecycles.",
 		Note:      "trusted: gortsplib session state machine (PrePlay->Play), hooks constructors launch the start command and return the closing closure"})
 	addMutants(
 		// C16
@@ -311,8 +311,8 @@ func runC18(c *Ctx) {
 	if p == nil {
 		return
 	}
-	c.Explain = "E2: path.readers written only by initialize (make), addReaderPost (insert); every detach (delete(path.readers, k) directly or through a remover method = a path method that deletes one of its parameters, computed) has k = Author of the function's PathRemoveReaderReq or k = the ranged reader of a loop over path.readers that Close()s it in every iteration; path.stream cleared only in setNotAvailable, set only in setAvailable. E1 addReaderPost: insert ⇒ author absent ∧ (MaxReaders == 0 ∨ len(readers) < MaxReaders). E1 setNotAvailable: every return is after the reader loop has finished, and every path through one iteration of the loop detaches and closes the ranged reader."
-	c.Assume = []string{"path fields are touched only by the path goroutine"}
+	c.Explain = "E2: path.readers written only by initialize (make), addReaderPost (insert); every detach (delete(path.readers, k) directly or through a remover method = a path method that deletes one of its parameters, computed) has k = Author of the function's PathRemoveReaderReq or k = the ranged reader of a loop over path.readers that Close()s it in every iteration; path.stream cleared only in setNotAvailable, set only in setAvailable. E1 addReaderPost: insert ⇒ author absent ∧ (MaxReaders == 0 ∨ len(readers) < MaxReaders). E1 setNotAvailable: every return is after the reader loop has finished, and every path through one iteration of the loop detaches and closes the ranged reader. limit_reload (prop_r4_c18.go): the invariant len(readers) <= conf.MaxReaders also depends on conf: .vetted = who-may-store on path.conf (a parameter of a path method) → its call sites pass a value received from a path channel → senders on that channel pass their parameter → every call/go of the sender is dominated by pathConfCanBeUpdated(_, X) == true for the X passed, or by a hit in a local set whose inserts are all dominated by such a test; .unchanged = every possibly-true return of pathConfCanBeUpdated is P.Equal(Q.Clone()+overwrites) without an overwrite of MaxReaders (or passes (old.MaxReaders == new.MaxReaders)), else doReloadConf must pass a literal implying the bound on every path after the store."
+	c.Assume = []string{"path fields are touched only by the path goroutine", "conf.Path.Equal is reflect.DeepEqual and conf.Path.Clone a deep copy (C11)"}
 
 	nW := 0
 	for _, fn := range p.ModFuncs() {
@@ -450,6 +450,8 @@ func runC18(c *Ctx) {
 	for er, k := range removers {
 		c.Check("C18.teardown", fnName(er)+": deletes the given reader", k > 0, p.Pos(er.Pos()), "")
 	}
+	// the limit also holds across a configuration reload (prop_r4_c18.go)
+	c18r4LimitSurvivesReload(c, p)
 }
 
 func isPathTyped(v ssa.Value) bool {
@@ -469,7 +471,7 @@ func runC19(c *Ctx) {
 	if p == nil {
 		return
 	}
-	c.Explain = "E4 exactly-once over all CFG paths of the handlers (events: send on / close of the request's reply channel, append of the request to an on-hold list, call of an answering function with the request); E2 who-may-append to the on-hold lists; drain rule per `list = nil`; teardown drain in path.run; requester-side receive after send; on-demand state stores against the transition table; C19.close_timer.*: no ScheduleClose after a reader-attaching call without len(readers)==0, ScheduleClose before the success reply of the on-ready handlers. Not decided: interleavings with timer expiry, fairness."
+	c.Explain = "E4 exactly-once over all CFG paths of the handlers (events: send on / close of the request's reply channel, append of the request to an on-hold list, call of an answering function with the request); E2 who-may-append to the on-hold lists; drain rule per `list = nil`; teardown drain in path.run; requester-side receive after send; on-demand state stores against the transition table; C19.close_timer.*: no ScheduleClose after a reader-attaching call without len(readers)==0, ScheduleClose before the success reply of the on-ready handlers; C19.close_timer.armed_when_empty (prop_r4_c19.go): in doRemoveReader every entry→return path calls onDemand<K>ScheduleClose/Stop or passes ¬(len(readers)==0) / ¬HasOnDemand<K> / ¬(state<K>==ready) (K=Publisher: or HasOnDemandStaticSource). Not decided: interleavings with timer expiry, fairness."
 	c.Assume = []string{"path fields are touched only by the path goroutine", "reply channels are unbuffered and each request value is handled by one handler invocation"}
 
 	holdLists := []string{"describeRequestsOnHold", "readerAddRequestsOnHold"}
@@ -743,6 +745,9 @@ func runC19(c *Ctx) {
 		}).Run(entry(fn))
 		c.Check("C19.close_timer.armed_on_ready", fnName(fn)+": on demand (HasOnDemand"+h.kind+" ∧ state != initial) the success reply is preceded by onDemand"+h.kind+"ScheduleClose", w == nil, p.Pos(fn.Pos()), w.String(p))
 	}
+	// ... and the remove-reader handler arms it from the state it finds, also for
+	// readers that the path had already detached itself (prop_r4_c19.go)
+	c19r4ArmedWhenEmpty(c, p)
 }
 
 // ---------------------------------------------------------------- C20
@@ -752,7 +757,7 @@ func runC20(c *Ctx) {
 	if p == nil {
 		return
 	}
-	c.Explain = "Per hooks.On* call site (13): the returned closure is stored in a holder field, deferred, or called (never dropped). Local holders: every return after the call passes a defer/call of the closure. path.onOfflineHook / onUnDemandHook / onUnavailableHook and the server-side fields: frozen who-may-store / who-may-call tables plus the guard literal each site must be dominated by. Rollback after setAvailable shared with C16. Not decided: alternation over arbitrary lifecycles (only that each transition function preserves 'hook open ⇔ resource held')."
+	c.Explain = "Per hooks.On* call site (13): the returned closure is stored in a holder field, deferred, or called (never dropped). Local holders: every return after the call passes a defer/call of the closure. path.onOfflineHook / onUnDemandHook / onUnavailableHook and the server-side fields: frozen who-may-store / who-may-call tables plus the guard literal each site must be dominated by. Rollback after setAvailable shared with C16. closed_when_open (prop_r4_c20.go): per (closing function, holder) of the table a walk from the entry (path.run: from after the runInner call) to every return with the call of the held closure as barrier and the negated table literal as the only excusing edge. Not decided: alternation over arbitrary lifecycles (only that each transition function preserves 'hook open ⇔ resource held')."
 	c.Assume = []string{"gortsplib: a session is in state Play only after onPlay ran in state PrePlay", "static sources call SetNotReady only after a successful SetReady"}
 
 	// ---- every hooks.On* result is used; classify holders
@@ -839,6 +844,7 @@ func runC20(c *Ctx) {
 		}
 		return T(s)
 	}
+	nClosing := 0
 	for _, h := range holders {
 		rule := "C20.server_holder"
 		switch h.field {
@@ -888,9 +894,34 @@ func runC20(c *Ctx) {
 					c.MustPass(p, fn, rule+".call_guard", h.field+"()", func(j ssa.Instruction) bool { return j == ii }, lit(req))
 				}
 			})
+			// the converse (prop_r4_c20.go): in a closing function the stop closure is
+			// skipped only when the pair is not open
+			if req, ok := h.callIn[name]; ok && !isNewHelper(fn) {
+				nClosing++
+				var open *LitPat
+				if req != "" {
+					l := lit(req)
+					open = &l
+				}
+				from, closes := entry(fn), c20r4FieldCall(h.strct, h.field)
+				if name == corePath+"run" {
+					from = c20r4TeardownStart(fn)
+					direct := closes
+					closes = func(i ssa.Instruction) bool {
+						return direct(i) || h.field == "onUnDemandHook" && isCallTo(i, "(*core.path).onDemandPublisherStop")
+					}
+				}
+				c20r4ClosedWhenOpen(c, p, fn, from, rule+".closed_when_open", h.strct+"."+h.field, closes, open)
+			}
 		}
 		c.Floor(rule+".stores:"+h.field, nSt, 1)
 		c.Floor(rule+".calls:"+h.field, nCl, 1)
+	}
+	c.Floor("C20.closed_when_open", nClosing, 8)
+	// the stream-paired holder at path teardown: closed through setNotAvailable unless no stream is held
+	if run := pathFn(c, p, "run"); run != nil {
+		open := F("($0.stream == nil)")
+		c20r4ClosedWhenOpen(c, p, run, c20r4TeardownStart(run), "C20.available.closed_when_open", "core.path.onUnavailableHook (setNotAvailable)", callTo("(*core.path).setNotAvailable"), &open)
 	}
 
 	// ---- path.onOfflineHook details
